@@ -155,13 +155,21 @@ func VerifC15PostGet(h *verifh.H) {
 	h.Assert(err == nil, "create")
 	// the payload's prefix is a local name: one that the hub does not know, one that the hub
 	// itself uses for another namespace (ns1), or the default prefix "_" (bare names)
-	pfx := []string{"ex", "ns1", "_"}[h.Choice("pfx", 3)]
+	pfxChoice := h.Choice("pfx", 4)
+	pfx := []string{"ex", "ns1", "_", "ex"}[pfxChoice]
+	fullKeys := false
 	q := func(local string) string {
 		if pfx == "_" {
 			return local
 		}
 		return pfx + ":" + local
 	}
+	if pfxChoice == 3 {
+		// identifiers, property and reference names written as full URIs (several of them in one payload)
+		fullKeys = true
+		q = func(local string) string { return "http://example.com/x/" + local }
+	}
+	_ = fullKeys
 	np := h.Choice("nprops", 3)
 	nr := h.Choice("nrefs", 3)
 	var pv, rv []string
